@@ -125,6 +125,12 @@ def class_graphs(X, tag, tier):
             Generic = S(en, {"x": X.Float64})
             Override = S(en, {"x": X.Float64, "tab": Tb, "h": Hp, "w": X.Int16[:]})
             return {"Elem": Override, "Tb": Tb, "Hp": Hp}, [[Generic, Override], [Generic, Override, Tb, Hp], [Tb, Generic, Override], [Override], [Generic, Tb, Override]], False
+        if kind == "lonely-fieldless-root":
+            # a class without fields (hence without dependencies) that nothing else in the build depends on, among the roots
+            Mk = S(name("Mk"), {})
+            Dr = S(name("Dr"), {"l": X.Float64})
+            Hy = type(name("Hy"), (X.HybridClass,), {"_xofields": {}})
+            return {"Mk": Mk, "Dr": Dr, "Hy": Hy._XoStruct}, [[Mk, Dr], [Dr, Mk], [Mk], [Hy._XoStruct, Dr], [Dr, Hy._XoStruct, Mk]], False
         if kind == "cycle2":
             A1 = S(name("A"), {"x": X.Float64})
             B = S(name("B"), {"a": A1})
@@ -142,7 +148,7 @@ def class_graphs(X, tag, tier):
             return {"A": A1}, [[A1]], True
         raise ValueError(kind)
 
-    for kind in ("fieldless-parent", "chain", "array-ref-union", "depends_on", "diamond-fieldless", "hybrid-depends_on", "same-name-override", "cycle2", "cycle3", "selfcycle"):
+    for kind in ("fieldless-parent", "chain", "array-ref-union", "depends_on", "diamond-fieldless", "hybrid-depends_on", "same-name-override", "lonely-fieldless-root", "cycle2", "cycle3", "selfcycle"):
         yield (kind,) + build(kind)
 
 
